@@ -663,6 +663,23 @@ func catalogue(b *built) []mutation {
 		return true
 	}))
 
+	// an interior space of a signed value becomes another whitespace character: SigV4 folds
+	// runs of the SPACE character only, so the canonical request changes
+	add(wireEdit("hdr-inner-space-to-other-whitespace", "", func(b *built, w *wireReq, rg *vkit.Rand) bool {
+		i := pickSigned(w, rg, func(h hdr) bool {
+			return !strings.EqualFold(h.Name, "content-length") && strings.Contains(strings.Trim(h.Value, " \t"), " ")
+		})
+		if i < 0 {
+			return false
+		}
+		v := w.Headers[i].Value
+		lead := len(v) - len(strings.TrimLeft(v, " \t"))
+		j := lead + strings.Index(strings.Trim(v, " \t"), " ")
+		repl := vkit.Pick(rg, []string{"\t", "\u00a0", "\u0085", " \t", "\t "})
+		w.Headers[i].Value = v[:j] + repl + v[j+1:]
+		return true
+	}))
+
 	// ---- unsigned security-sensitive headers ----
 	add(wireEdit("add-unsigned-x-amz-header", "", func(b *built, w *wireReq, rg *vkit.Rand) bool {
 		pool := []hdr{{"x-amz-meta-verif", "evil"}, {"x-amz-storage-class", "GLACIER"}, {"x-amz-copy-source", "/other/secret"},
@@ -694,6 +711,25 @@ func catalogue(b *built) []mutation {
 	}))
 
 	// ---- payload ----
+	// a body is attached to a request that was signed without one (hash of the empty payload),
+	// framed with Transfer-Encoding: chunked so that no signed Content-Length contradicts it
+	if b.Spec.Mode == modeHashed && len(b.Payload) == 0 {
+		add(wireEdit("attach-chunked-body-to-bodyless-request", "", func(b *built, w *wireReq, rg *vkit.Rand) bool {
+			for _, n := range signedHeaderList(w) {
+				if n == "content-length" || n == "transfer-encoding" {
+					return false
+				}
+			}
+			if v, ok := w.get("X-Amz-Content-Sha256"); !ok || v != sha256hex(nil) {
+				return false
+			}
+			w.del("Content-Length")
+			w.del("Transfer-Encoding")
+			w.Headers = append(w.Headers, hdr{"Transfer-Encoding", "chunked"})
+			w.Body = []byte("b\r\nevil-bytes!\r\n0\r\n\r\n")
+			return true
+		}))
+	}
 	if payloadSigned(b.Spec.Mode) {
 		add(wireEdit("body-flip-byte", "", func(b *built, w *wireReq, rg *vkit.Rand) bool {
 			if len(b.Payload) == 0 {
